@@ -128,6 +128,11 @@ def v2_market(case, wallet):
     ts = pd.Timestamp("2024-10-15")
     df = pd.DataFrame([[float(case[c]) if case[c] is not None else None for c in cols]], columns=cols, index=[ts])
     m = GmxV2Market(MarketInfo("gm", MarketTypeEnum.gmx_v2), GmxV2Pool(lt, st_, lt), data=df)
+    fc = case.get("fees")
+    if fc:  # a pool configured with its own fee factors (GmxV2Market.pool_config)
+        from demeter.gmx.gmx_v2 import PoolConfig
+
+        m.pool_config = PoolConfig(18, 6, depositFeeFactorForPositiveImpact=fc["dp"], depositFeeFactorForNegativeImpact=fc["dn"], withdrawFeeFactorForPositiveImpact=fc["wp"], withdrawFeeFactorForNegativeImpact=fc["wn"])
     broker.add_market(m)
     broker.set_balance(lt, D(wallet["long"]))
     broker.set_balance(st_, D(wallet["short"]))
@@ -170,7 +175,8 @@ def v2_deposit(case, aL: float, aS: float):
         if a <= 0:
             continue
         ik = imp * u / (uL + uS)
-        ff = 0.0005 if ik > 0 else 0.0007
+        fc = case.get("fees") or {"dp": 0.0005, "dn": 0.0007}
+        ff = fc["dp"] if ik > 0 else fc["dn"]
         fee = a * ff
         after = a - fee
         if ik > 0:
@@ -190,4 +196,5 @@ def v2_withdraw(case, g: float):
     usd = float(case["poolValue"]) * g / float(case["marketTokensSupply"])
     lo = usd * PL / (PL + PS) / pL
     so = usd * PS / (PL + PS) / pS
-    return lo * (1 - 0.0007), so * (1 - 0.0007)
+    wn = (case.get("fees") or {"wn": 0.0007})["wn"]
+    return lo * (1 - wn), so * (1 - wn)
